@@ -73,3 +73,19 @@ PROPS["C07"] = dict(
          "amplitude moduli; non-trivial = a negative/non-real amplitude present; distinct by (check kind, wavefunction "
          "kind, norb, case index)",
 )
+
+PROPS["C08"] = dict(
+    level="proof",
+    technique="Lean 4 theorems about the arithmetic model (refuse-iff-sector-sets-differ, pointwise axpy/scale, "
+              "set/get frame law, max-magnitude selection, bilinearity over any commutative ring) + exact "
+              "operation-history correspondence with the Lean driver on both code paths",
+    text="The model of ax_plus_y/scale/getitem/setitem/max_element/dot is proved to be the corresponding vector "
+         "operation (and to refuse exactly when the sector sets differ); random histories of 20-40 operations over a "
+         "pool of wavefunctions are executed on the real library and every pool member is compared exactly with the "
+         "model after every step (frame + value), Gaussian-integer data.",
+    note="Lean kernel + Mathlib ring tactic; the tie to the code is the history correspondence (not a translator); "
+         "normalize/norm are compared with tolerance 1e-9 (sqrt).",
+    design_ref="DESIGN.md §5 C08",
+    rule="cases = steps of random operation histories (axpy/add/sub/iadd/scale/dot/vdot/norm/max/get/set/set_wfn/"
+         "empty_copy/deepcopy/mismatched operands); every step is non-trivial (state differs); distinct by (history, step)",
+)
